@@ -693,7 +693,8 @@ class C15(Check):
             "drainage curve is taken from the same deck without hysteresis).  Non-trivial: a table with >= 5 rows and critical != connate "
             "end-points (unscaled/identity), a scaled end-point > 5 % away from the table's (eps), a history with "
             ">= 2 reversals (hyst); distinct by (mode, phases, oil model, row-count classes, keyword set, "
-            "three-point, hysteresis model, imbibition==drainage, reversal class).")
+            "three-point, hysteresis model, imbibition==drainage, reversal class)."
+            " Extended during the build phase: up to 4 regions with defaulted table records (non-hysteresis modes), SLGOF as a third input form (three-phase), cells with SWU below 1-SOWCR under three-point scaling, PCW / PCG exactly 0, hysteresis x end-point scaling, gas histories with mobile water.")
     ASSUMPTIONS = [
         "relperm values in the tables are 0 or >= 0.001 (TOLCRIT = 1e-6 is never in play)",
         "SGL is not scaled (first SGOF saturation is 0 as the keyword requires); directional/irreversible scaling, "
